@@ -36,6 +36,17 @@ CHECKS = {
               "registered in BACKENDS, exhaustively over op x 25 modes x presence x root x keyword x type x check modes, plus random sequences."),
         note=COMMON_NOTE + "Params.object_params is reached through the real call (library code); the in-memory backend's semantics (unset_root drops the object's states) is harness glue; mode strings are two letters over {a,r,i,f,x}.",
         design="§5 C12"),
+    "C13": dict(
+        engine="corr-pure",
+        technique="Coq proof (the proximity sort is a stable descending permutation; induction over source lists for scope filtering, closest-source choice, all-mirrors, re-download iff, present-only-if, refusal) + model/implementation correspondence by vm_compute (exhaustive over scope subsets x short source lists, sampled beyond)",
+        text=("Theorems over Model/Pool.v for any number of sources, any scope set and any pool/cache content: transport calls go only to sources whose "
+              "scope is enabled and is not own, local get/set/unset only with own enabled; get contacts a source of maximal proximity among the "
+              "permitted ones; set/unset contact exactly the permitted mirrors; a state (or root) is downloaded iff the chosen source has it and the "
+              "local copy is missing or differs; a state is shown only if cached (own enabled) or in a permitted mirror; set without own and "
+              "without the local state and set_root to the shared pool without a local root are refused before any transport. Compared call by call "
+              "with SourcedStateBackend / RootSourcedStateBackend through stub transport and stub local methods."),
+        note=COMMON_NOTE + "Gateways/hosts/paths are interned strings; Params.objects de-duplication of locations and Params.get_list splitting are library behaviour mirrored by the harness; TransferOps/QCOW2ImageTransfer below the transport seam are the subject of C14, not of this model.",
+        design="§5 C13"),
     "C18": dict(
         engine="corr-pure",
         technique="Coq proof (finite sweep lifted for the 33 prefix lengths, lia/nia for membership and translation, induction for allocation, invariant over build/reattach) + model/implementation correspondence by vm_compute",
